@@ -433,3 +433,138 @@ def _measure_c12(L):
 
 contract('C12.runtime.requery', [AN + 'spot_diagram.py:SpotDiagram.__init__', AN + 'ray_fan.py:RayFan.__init__', AN + 'field_curvature.py:FieldCurvature.__init__'],
          ['C12', 'C13'], custom=rt.requery_custom(_measure_c12, 'C12.runtime.analyses_of_an_edited_lens_equal_those_of_a_lens_built_with_the_edits'))(lambda c: None)
+
+
+# ---- bounded tier, second part: the analyses the statement names that have no contract above ------------------------------------
+def _bounded_more(ct, tier, seed):
+    import warnings
+    from optiland import analysis
+    from optiland.optimization.operand.ray import RayOperand
+    warnings.simplefilter('ignore')
+    np.seterr(all='ignore')
+    t0 = time.time()
+    rng = random.Random(seed * 19 + 1)
+    clauses, fails, cases, used = {}, [], 0, []
+
+    def note(cid, ok, detail, inputs):
+        c_ = clauses.setdefault(cid, {'paths': 0, 'proved': 0, 'backends': {}, 'failed': [], 'seconds': 0.0, 'bounded': True})
+        c_['paths'] += 1
+        if ok:
+            c_['proved'] += 1
+            c_['backends']['runtime'] = c_['backends'].get('runtime', 0) + 1
+        else:
+            fails.append({'clause': cid, 'draws': inputs, 'note': detail})
+    lenses = []
+    names = rt.sample_names()
+    rng.shuffle(names)
+    for (m, n) in names[:(3 if tier == 'quick' else len(names))]:
+        lenses.append((n, lambda m=m, n=n: rt.make_sample(m, n)))
+    for i in range(3 if tier == 'quick' else 25):
+        st = rng.getstate()
+        lenses.append(('random#%d' % i, lambda st=st: rt.random_lens(_rng(st), finite=False)))
+    eq = lambda a, b, tol=1e-10: bool(np.allclose(np.asarray(a, dtype=float), np.asarray(b, dtype=float), rtol=tol, atol=tol, equal_nan=True))
+    for lname, mk in lenses:
+        try:
+            L = mk()
+            pw = L.primary_wavelength
+            L.trace(0.0, 0.5, pw, 2, 'hexapolar')
+        except Exception:
+            continue
+        if L.field_type != 'angle' or L.obj_space_telecentric:
+            continue
+        inputs = {'lens': lname}
+        used.append(lname)
+        sg = L.surface_group
+        # (a) RMS spot size versus field = the spot-diagram RMS radius at the fields (0, Hy), Hy = linspace(0, 1, n)
+        try:
+            nf = 3
+            rv = analysis.RmsSpotSizeVsField(L, num_fields=nf, wavelengths=[pw], num_rings=3)
+            for i, Hy in enumerate(np.linspace(0, 1, nf)):
+                L.trace(0.0, float(Hy), pw, 3, 'hexapolar')
+                x, y = sg.x[-1].copy(), sg.y[-1].copy()
+                want = np.sqrt(np.mean((x - np.mean(x)) ** 2 + (y - np.mean(y)) ** 2))
+                cases += 1
+                note('C12.runtime.rms_spot_vs_field_is_spot_rms_at_each_field', eq(rv._spot_size[i][0], want) and eq(rv._field[i], (0.0, Hy)),
+                     '%s Hy=%s: %s vs %s' % (lname, Hy, rv._spot_size[i][0], want), inputs)
+        except Exception as ex:
+            note('C12.runtime.rms_spot_vs_field_is_spot_rms_at_each_field', False, 'raised %s: %s' % (type(ex).__name__, ex), inputs)
+        # (b) grid distortion: real chief-ray landing points over the field grid, predicted points from the small-field scale
+        try:
+            for dtype_ in ('f-tan', 'f-theta'):
+                npts = 3
+                gd = analysis.GridDistortion(L, num_points=npts, distortion_type=dtype_)
+                ext = np.linspace(-np.sqrt(2) / 2, np.sqrt(2) / 2, npts)
+                HX, HY = np.meshgrid(ext, ext)
+                xr, yr = np.zeros((npts, npts)), np.zeros((npts, npts))
+                for i in range(npts):
+                    for j in range(npts):
+                        L.trace_generic(float(HX[i, j]), float(HY[i, j]), 0.0, 0.0, pw)
+                        xr[i, j], yr[i, j] = sg.x[-1, 0], sg.y[-1, 0]
+                # small-field scale (image displacement per unit tangent / unit angle of field), measured separately in y and in x
+                F = math.radians(float(L.fields.max_field))
+                L.trace_generic(0.0, 1e-10, 0.0, 0.0, pw)
+                sy = sg.y[-1, 0]
+                L.trace_generic(1e-10, 0.0, 0.0, 0.0, pw)
+                sx = sg.x[-1, 0]
+                if dtype_ == 'f-tan':
+                    xp, yp = sx / math.tan(1e-10 * F) * np.tan(HX * F), sy / math.tan(1e-10 * F) * np.tan(HY * F)
+                else:
+                    xp, yp = sx / (1e-10 * F) * HX * F, sy / (1e-10 * F) * HY * F
+                cases += 1
+                note('C12.runtime.grid_distortion_real_points_are_chief_ray_landing_points', eq(gd.data['xr'], xr) and eq(gd.data['yr'], yr),
+                     '%s %s' % (lname, dtype_), inputs)
+                # the predicted point of the grid node (Hx, Hy) must sit next to the real point of the same node
+                note('C12.runtime.grid_distortion_predicted_points_belong_to_the_same_field_nodes', eq(gd.data['yp'], yp, 1e-7) and eq(gd.data['xp'], xp, 1e-7),
+                     '%s %s: xp %s vs %s' % (lname, dtype_, gd.data['xp'][0], xp[0]), inputs)
+                delta = np.sqrt((xp - xr) ** 2 + (yp - yr) ** 2)
+                rp = np.sqrt(xp ** 2 + yp ** 2)
+                note('C12.runtime.grid_distortion_maximum_is_largest_relative_departure', eq(gd.data['max_distortion'], np.nanmax(100 * delta / rp), 1e-6),
+                     '%s %s: %s vs %s' % (lname, dtype_, gd.data['max_distortion'], np.nanmax(100 * delta / rp)), inputs)
+        except Exception as ex:
+            note('C12.runtime.grid_distortion_real_points_are_chief_ray_landing_points', False, 'raised %s: %s' % (type(ex).__name__, ex), inputs)
+        # (c) pupil aberration: departure of the real ray at the stop from the paraxial pupil coordinate, in percent of the stop radius
+        try:
+            stop = sg.stop_index
+            ya, _ = L.paraxial.marginal_ray()
+            d = float(ya[stop, 0])
+            if stop > 1 and abs(d) > 1e-9:            # (stop on the first surface: Paraxial.trace is 0/0 there, see DESIGN observations)
+                npt = 5
+                f0 = (0.0, 0.7)
+                pa = analysis.PupilAberration(L, fields=[f0], wavelengths=[pw], num_points=npt)
+                P = np.linspace(-1, 1, npt)
+                ry = []
+                rx = []
+                for p_ in P:
+                    L.trace_generic(f0[0], f0[1], 0.0, float(p_), pw)
+                    ry.append(sg.y[stop, 0] if sg.intensity[stop, 0] != 0 else np.nan)
+                    L.trace_generic(f0[0], f0[1], float(p_), 0.0, pw)
+                    rx.append(sg.x[stop, 0] if sg.intensity[stop, 0] != 0 else np.nan)
+                want_y = (P * d - np.array(ry)) / d * 100
+                want_x = (P * d - np.array(rx)) / d * 100
+                got = pa.data[str(f0)][str(pw)]
+                cases += 1
+                note('C12.runtime.pupil_aberration_is_percent_departure_at_the_stop', eq(got['y'], want_y, 1e-8) and eq(got['x'], want_x, 1e-8),
+                     '%s: %s vs %s' % (lname, got['y'], want_y), inputs)
+        except Exception as ex:
+            note('C12.runtime.pupil_aberration_is_percent_departure_at_the_stop', False, 'raised %s: %s' % (type(ex).__name__, ex), inputs)
+        # (d) real-ray operands: the coordinate / direction cosine of the single traced ray at the named surface
+        try:
+            k = rng.randrange(1, sg.num_surfaces)
+            Hy, Px, Py = rng.uniform(0, 1), rng.uniform(-0.5, 0.5), rng.uniform(-0.5, 0.5)
+            got = [getattr(RayOperand, a)(L, k, 0.0, Hy, Px, Py, pw) for a in ('x_intercept', 'y_intercept', 'z_intercept', 'L', 'M', 'N')]
+            L.trace_generic(0.0, Hy, Px, Py, pw)
+            want = [getattr(sg, a)[k, 0] for a in ('x', 'y', 'z', 'L', 'M', 'N')]
+            cases += 1
+            note('C12.runtime.real_ray_operands_are_the_traced_ray_at_that_surface', eq(got, want, 0), '%s surface %d' % (lname, k), inputs)
+        except Exception as ex:
+            note('C12.runtime.real_ray_operands_are_the_traced_ray_at_that_surface', False, 'raised %s: %s' % (type(ex).__name__, ex), inputs)
+    return {'contract': ct.name, 'functions': ct.functions, 'props': ct.props,
+            'symbolic': {'clauses': clauses, 'paths': 0, 'errors': [], 'solver_s': 0.0, 'samples': [], 'wd_assumed': [], 'assumed': []},
+            'numeric': {'accepted': cases, 'rejected': 0, 'failures': fails[:10], 'concolic_agree': 0, 'encoder_mismatches': [],
+                        'samples': [{'lenses': used[:8]}]}, 'wall_s': time.time() - t0}
+
+
+contract('C12.runtime.more', [AN + 'rms_vs_field.py:RmsSpotSizeVsField.__init__', AN + 'grid_distortion.py:GridDistortion._generate_data',
+                              AN + 'pupil_aberration.py:PupilAberration._generate_data', 'optiland/optimization/operand/ray.py:RayOperand.x_intercept',
+                              'optiland/optimization/operand/ray.py:RayOperand.y_intercept', 'optiland/optimization/operand/ray.py:RayOperand.L'],
+         ['C12'], custom=_bounded_more)(lambda c: None)
